@@ -78,6 +78,20 @@ class Normalizer:
         return self._cache[key]
 
 
+def search_loop_form(stmts: List[ast.stmt]) -> List[ast.stmt]:
+    """N15 alone, for readers of raw statement lists (the evaluator)."""
+    for i, st in enumerate(stmts):
+        if isinstance(st, ast.For) and st.orelse and _Ctx._exits(st.orelse) and len(st.body) == 1 and isinstance(st.body[0], ast.If) \
+                and not st.body[0].orelse and len(st.body[0].body) == 1 and isinstance(st.body[0].body[0], ast.Break):
+            rest = list(stmts[i + 1:])
+            if _Ctx._exits(rest) and not any(isinstance(n, (ast.Break, ast.Continue)) for r in rest for n in ast.walk(r)):
+                hit = ast.copy_location(ast.If(test=st.body[0].test, body=rest, orelse=[]), st.body[0])
+                loop = ast.copy_location(ast.For(target=st.target, iter=st.iter, body=[hit], orelse=[]), st)
+                ast.fix_missing_locations(loop)
+                return list(stmts[:i]) + [loop] + list(st.orelse)
+    return list(stmts)
+
+
 def match_as_if(model: Model, fn: Optional[FunctionInfo], st: ast.Match) -> Optional[List[ast.stmt]]:
     """the if / elif chain a ``match`` statement abbreviates (None outside the supported pattern fragment)"""
     ctx = _Ctx(model, fn, set())
